@@ -179,12 +179,7 @@ pub fn blocksw(f: &Fields) -> String {
     let sizes: Vec<String> = blocks.iter().map(size_str).collect();
     if let Some(at) = opt_num::<usize>(f, "failat") {
         // C13: a failing sink; success must mean every byte arrived
-        let kind = match get(f, "fkind") {
-            "once" => FaultKind::Once,
-            "intr" => FaultKind::Interrupted,
-            "short" => FaultKind::Short(1),
-            _ => FaultKind::Permanent,
-        };
+        let kind = fault_kind(get(f, "fkind"));
         let mut clean: Vec<u8> = Vec::new();
         let cr = write_blocks(&mut clean, blocks.iter());
         let sink = Shared::from_data(Vec::new());
@@ -546,12 +541,7 @@ fn update_run(f: &Fields, inject: bool) -> UpdateRun {
     let scripts: Vec<&str> = get(f, "edits").split('|').collect();
     let failat: Option<usize> = if inject { opt_num(f, "failat") } else { None };
     let fstep: usize = num(f, "fstep", 0);
-    let kind = match get(f, "fkind") {
-        "once" => FaultKind::Once,
-        "intr" => FaultKind::Interrupted,
-        "short" => FaultKind::Short(1),
-        _ => FaultKind::Permanent,
-    };
+    let kind = fault_kind(get(f, "fkind"));
     let mut run = UpdateRun { steps: vec![], lens: vec![file.len()], file: vec![], tripped: false, calls: 0 };
     for (i, sc) in scripts.iter().enumerate() {
         let orig = Shared::from_data(file.clone());
